@@ -159,6 +159,9 @@ def _bytes_fun(data, p):
 
 def sym_len(x):
     if isinstance(x, SymBytes):
+        k = getattr(x, "itemsize", 1)
+        if k != 1:
+            return mk(x.length / k)  # len() of a typed memoryview counts items, not bytes
         return x.sym_len()
     return len(x)
 
@@ -170,15 +173,134 @@ def sym_bytearray(x=b""):
     return bytearray(x)
 
 
+class SymNd:
+    """S16: a NumPy array as the primitives see it -- a concrete dtype, a SYMBOLIC element count, content opaque.
+    astype() gives another array of the same count (fresh opaque content = the converted values), flatten() the same
+    elements in C order, view('int8') / .data its count*itemsize bytes."""
+
+    def __init__(self, dtype, count, tag):
+        self.dtype = np.dtype(dtype)
+        self.count = T(count)
+        self.tag = tag
+        self.bytes = SymBytes("ndarray", length=z3.simplify(self.count * self.dtype.itemsize), name=f"nd_{tag}_{self.dtype.name}")
+        self.conversions = 0
+
+    def astype(self, dtype=None, **kw):
+        r = SymNd(dtype, self.count, self.tag + "_as")
+        r.conversions = self.conversions + 1
+        r.origin = self
+        return r
+
+    def flatten(self, order="C"):
+        return self
+
+    ravel = flatten
+
+    def reshape(self, *shape, **kw):
+        return self  # one-dimensional already; same elements in index order
+
+    def view(self, dtype):
+        if np.dtype(dtype).itemsize != 1:
+            raise symx.Abort()
+        SymNdLog.last = self
+        return self.bytes
+
+    @property
+    def data(self):
+        SymNdLog.last = self
+        return self.bytes
+
+    @property
+    def nbytes(self):
+        return mk(self.bytes.length)
+
+    @property
+    def size(self):
+        return mk(self.count)
+
+
+class SymNdLog:
+    last = None  # the array whose bytes were handed out last (per harness path)
+
+
+class SymView:
+    """what np.frombuffer(storage, dtype, count, offset) gives: a typed window on the storage (aliases it)"""
+
+    def __init__(self, root, dtype, count, offset):
+        self.root, self.dtype, self.count, self.offset = root, np.dtype(dtype), T(count), T(offset)
+        self.shape = None
+        self.window = SymBytes("ndarray", length=z3.simplify(self.count * self.dtype.itemsize), parent=root, start=self.offset)
+
+    def reshape(self, *shape):
+        self.shape = list(shape[0]) if len(shape) == 1 and isinstance(shape[0], (list, tuple)) else list(shape)
+        return self
+
+
+class NPProxy:
+    """numpy as seen by xobjects.context_cpu during the symbolic run"""
+
+    def __getattr__(self, name):
+        return getattr(np, name)
+
+    def prod(self, xs, *a, **k):
+        xs = list(xs)
+        if any(isinstance(x, SymInt) for x in xs):
+            r = mk(z3.IntVal(1))
+            for x in xs:
+                r = r * x
+            return r
+        return np.prod(xs, *a, **k)
+
+    def frombuffer(self, buf, dtype=float, count=-1, offset=0):
+        if isinstance(buf, SymBytes):
+            e = symx.engine()
+            isz = np.dtype(dtype).itemsize
+            # NumPy raises when the window does not fit the buffer
+            fits = z3.And(T(offset) >= 0, T(count) >= 0, T(offset) + T(count) * isz <= buf.length)
+            if not e.decide(fits):
+                raise ValueError("buffer is smaller than requested size")
+            return SymView(buf, dtype, count, offset)
+        return np.frombuffer(buf, dtype=dtype, count=count, offset=offset)
+
+
+class _SymMV:
+    """memoryview(x) of a symbolic byte container: .cast('B') gives its bytes (item size 1), .nbytes their number"""
+
+    def __init__(self, x):
+        self.x = x
+
+    def cast(self, fmt, *a):
+        if fmt not in ("B", "b", "c"):
+            raise symx.Abort()
+        snap = self.x.snapshot()
+        return SymBytes("bytearray", length=self.x.length, content=snap)
+
+    @property
+    def nbytes(self):
+        return mk(self.x.length)
+
+
+def sym_memoryview(x):
+    return _SymMV(x) if isinstance(x, SymBytes) else memoryview(x)
+
+
 class Patched:
     def __enter__(self):
         xcpu.len = sym_len
         xcpu.bytearray = sym_bytearray
+        xcpu.memoryview = sym_memoryview
+        self._np = xcpu.np
+        self._n2n = xcpu.nplike_to_numpy
+        xcpu.np = NPProxy()
+        xcpu.nplike_to_numpy = lambda a: a if isinstance(a, SymNd) else self._n2n(a)
         return self
 
     def __exit__(self, *a):
         del xcpu.len
         del xcpu.bytearray
+        del xcpu.memoryview
+        xcpu.np = self._np
+        xcpu.nplike_to_numpy = self._n2n
 
 
 class _Ctx:
@@ -220,7 +342,8 @@ def harness(cfg):
         native = SymBytes(NATIVE[kind], length=cap.e, name="dst")
         pre = native.snapshot()
         b = mkbuf(kind, native, ctx)
-        det = lambda m: {k: m.eval(v.e, model_completion=True).as_long() for k, v in (("cap", cap), ("off", off), ("n", n), ("so", so), ("slen", slen))}
+        extra = {}
+        det = lambda m: {k: m.eval(v.e, model_completion=True).as_long() for k, v in list((("cap", cap), ("off", off), ("n", n), ("so", so), ("slen", slen))) + list(extra.items())}
         inside_dst = z3.And(off.e >= 0, n.e >= 0, off.e + n.e <= cap.e)
         inside_src = z3.And(so.e >= 0, so.e + n.e <= slen.e)
 
@@ -260,7 +383,12 @@ def harness(cfg):
                 )
                 e.prove(z3.Implies(z3.And(0 <= p, p < cap.e), native.at(p) == pre(p)), f"{prim}: the buffer itself is not modified", det)
             elif prim == "update_from_buffer":
-                src = SymBytes("bytearray", length=n.e, name="pysrc")  # a Python bytes-like of length n
+                src = SymBytes("bytearray", length=n.e, name="pysrc")  # a Python bytes-like of n bytes
+                if variant.startswith("memoryview/"):
+                    # the .data of a NumPy array with items of k bytes (documented as a valid source): n bytes, n/k items
+                    k = int(variant.split("/")[1])
+                    src.itemsize = k
+                    e.assume(n.e % k == 0)
                 spre = src.snapshot()
                 e.assume(inside_dst)
                 b.update_from_buffer(off, src)
@@ -279,6 +407,51 @@ def harness(cfg):
                         e.prove(z3.BoolVal(r.kind == "bytearray"), f"{prim}: returns a bytearray", det)
                 e.prove(z3.Implies(z3.And(0 <= p, p < cap.e), native.at(p) == pre(p)), f"{prim}: the buffer is not modified", det)
                 e.prove(native.length == cap.e, f"{prim}: the buffer keeps its length", det)
+            elif prim == "update_from_nplike":
+                # variant = "<source dtype>-><destination dtype>"
+                sdt, ddt = variant.split("->")
+                cnt = e.sym("cnt", 0, BIG)
+                extra["cnt"] = cnt
+                SymNdLog.last = None
+                src = SymNd(sdt, cnt.e, "src")
+                dsz = np.dtype(ddt).itemsize
+                e.assume(z3.And(off.e >= 0, off.e + cnt.e * dsz <= cap.e, n.e == cnt.e * dsz))
+                b.update_from_nplike(off, np.dtype(ddt), src)
+                # the bytes that must arrive: those of the array in the DESTINATION dtype (the source's own bytes when
+                # the dtypes agree, the bytes of exactly one conversion otherwise)
+                rootlen = native.length
+                e.prove(rootlen == cap.e, f"{prim}: the buffer keeps its length", det)
+                w = SymNdLog.last
+                ok_src = w is not None and w.dtype == np.dtype(ddt) and ((w is src) if sdt == ddt else (getattr(w, "origin", None) is src and w.conversions == 1))
+                e.prove(z3.BoolVal(bool(ok_src)), f"{prim}: the bytes written are those of the array in the destination dtype (converted once iff the dtypes differ)", det)
+                if w is not None:
+                    wb = w.bytes.snapshot()
+                    e.prove(
+                        z3.Implies(z3.And(0 <= p, p < cap.e), native.content(p) == z3.If(z3.And(off.e <= p, p < off.e + cnt.e * dsz), wb(p - off.e), pre(p))),
+                        f"{prim}: exactly count*itemsize(destination dtype) bytes change, at the requested offset, to the array's bytes; all others keep their value",
+                        det,
+                    )
+            elif prim in ("to_nplike", "to_nparray"):
+                dt, nd = variant.split("/")
+                nd = int(nd)
+                dims = [e.sym(f"d{k}", 0, BIG) for k in range(nd)]
+                for k, d in enumerate(dims):
+                    extra[f"d{k}"] = d
+                isz = np.dtype(dt).itemsize
+                tot = z3.IntVal(1)
+                for d in dims:
+                    tot = tot * d.e
+                e.assume(z3.And(off.e >= 0, off.e + tot * isz <= cap.e, n.e == tot * isz))
+                r = getattr(b, prim)(off, np.dtype(dt), dims)
+                okv = isinstance(r, SymView)
+                e.prove(z3.BoolVal(okv), f"{prim}: returns a typed window on the buffer's storage (a view, not a copy)", det)
+                if okv:
+                    e.prove(z3.BoolVal(r.root is native), f"{prim}: the view aliases the buffer's own storage", det)
+                    e.prove(r.offset == off.e, f"{prim}: the view starts at the requested offset", det)
+                    e.prove(r.window.length == tot * isz, f"{prim}: the view covers exactly prod(shape)*itemsize bytes", det)
+                    e.prove(z3.BoolVal(r.dtype == np.dtype(dt)), f"{prim}: the view has the requested dtype", det)
+                    e.prove(z3.BoolVal(r.shape is not None and len(r.shape) == nd and all(a is b_ for a, b_ in zip(r.shape, dims))), f"{prim}: the view has the requested shape", det)
+                e.prove(z3.Implies(z3.And(0 <= p, p < cap.e), native.at(p) == pre(p)), f"{prim}: the buffer is not modified", det)
             elif prim == "update_from_xbuffer":
                 skind = kind if variant.startswith("same") else ("BufferByteArray" if kind == "BufferNumpy" else "BufferNumpy")
                 sctx = ctx if variant == "same_context" else _Ctx("B")
@@ -384,7 +557,12 @@ try:
         if img(b) != pre: fail("buffer modified by copy_to_native")
     elif prim == "update_from_buffer":
         data = bytes((k * 5 + 1) % 250 for k in range(n))
-        b.update_from_buffer(off, data)
+        if variant.startswith("memoryview/"):
+            src = np.frombuffer(data, dtype="i" + variant.split("/")[1]).data
+            b.update_from_buffer(off, src)
+        else:
+            b.update_from_buffer(off, data)
+        if len(bytearray(b.buffer)) != cap: fail("the buffer changed its length")
         if img(b) != pre[:off] + data + pre[off + n:]: fail("buffer content after update_from_buffer differs from the specification")
     elif prim in ("to_native", "to_bytearray", "to_pointer_arg"):
         r = getattr(b, prim)(off, n)
@@ -393,6 +571,28 @@ try:
         if prim != "to_pointer_arg" and n > 0:
             r[0] = (int(r[0]) + 1) % 100
             if img(b) != pre: fail(prim + " result aliases the buffer")
+    elif prim == "update_from_nplike":
+        sdt, ddt = variant.split("->")
+        cnt = m.get("cnt", 0)
+        if cnt > (1 << 22): print("model too large to replay"); sys.exit(2)
+        a = (np.arange(cnt) * 3 % 101 - 50).astype(sdt)
+        b.update_from_nplike(off, np.dtype(ddt), a)
+        data = a.astype(ddt).tobytes()
+        if img(b) != pre[:off] + data + pre[off + len(data):]: fail("buffer content after update_from_nplike differs from the specification")
+    elif prim in ("to_nplike", "to_nparray"):
+        dt, nd = variant.split("/")
+        dims = [m.get("d%d" % k, 0) for k in range(int(nd))]
+        tot = int(np.prod(dims)) if dims else 1
+        if tot > (1 << 22): print("model too large to replay"); sys.exit(2)
+        r = getattr(b, prim)(off, np.dtype(dt), dims)
+        isz = np.dtype(dt).itemsize
+        if list(r.shape) != list(dims) or r.dtype != np.dtype(dt): fail(prim + " returned another shape/dtype than requested")
+        if r.tobytes() != pre[off:off + tot * isz]: fail(prim + " does not show the buffer bytes at the requested offset")
+        if img(b) != pre: fail("buffer modified")
+        if tot > 0:
+            r.reshape(-1)[0] = r.reshape(-1)[0] + 1 if np.dtype(dt).kind != "f" else 1.5
+            now = img(b)
+            if now == pre or now[:off] != pre[:off] or now[off + isz:] != pre[off + isz:]: fail(prim + ": a write through the typed view does not change exactly the bytes of that element in the buffer")
     elif prim == "update_from_xbuffer":
         skind = kind if variant.startswith("same") else ("BufferByteArray" if kind == "BufferNumpy" else "BufferNumpy")
         sctx = ctx if variant == "same_context" else ContextCpu()
@@ -407,13 +607,110 @@ print("property holds on this case"); sys.exit(0)
 '''
 
 
+DTYPES = ["int8", "int16", "int32", "int64", "uint8", "uint16", "uint32", "uint64", "float32", "float64"]
+
+NP_REPLAY = '''#!/usr/bin/env python
+"""replay of a concrete NumPy-conversion case of C13 on the real CPU buffers (exit 1 = property violated)"""
+import os, sys
+if not sys.executable.startswith("/verif/.venv"):
+    os.execv("/verif/.venv/bin/python", ["/verif/.venv/bin/python"] + sys.argv)
+sys.path.insert(0, "/verif")
+from checks import prims
+r = prims.numpy_case(*{case!r})
+if r: print("VIOLATED:", r); sys.exit(1)
+print("property holds on this case"); sys.exit(0)
+'''
+
+
+def _layouts(dt):
+    base = (np.arange(24) * 7 % 23 - 9).astype(dt)
+    return {
+        "1d": base[:5].copy(),
+        "2d_C": base.reshape(4, 6).copy(),
+        "2d_F": np.asfortranarray(base.reshape(4, 6)),
+        "2d_T": base.reshape(6, 4).T,
+        "strided": base[1::3],
+        "3d_perm": base.reshape(2, 3, 4).transpose(1, 2, 0),
+        "empty": base[:0],
+        "0d": base[3:4].reshape(()),
+    }
+
+
+def numpy_case(kind, sdt, ddt, lay, off):
+    """one concrete case of the NumPy half of C13 (auxiliary, no solver): returns a message or None"""
+    K = dict(BufferNumpy=BufferNumpy, BufferByteArray=BufferByteArray)
+    a = _layouts(sdt)[lay]
+    want = a.astype(ddt).flatten().tobytes()  # elements in index (C) order, converted to the destination dtype
+    cap = off + len(want) + 5
+    b = K[kind](capacity=cap, context=xcpu.ContextCpu())
+    for k in range(cap):
+        b.buffer[k] = (k * 7 + 3) % 120 + 1
+    pre = bytes(bytearray(b.buffer))
+    try:
+        b.update_from_nplike(off, np.dtype(ddt), a)
+    except Exception as ex:  # noqa
+        return f"update_from_nplike({kind}, {sdt}->{ddt}, layout {lay}, offset {off}) raised {type(ex).__name__}: {str(ex)[:80]}"
+    post = bytes(bytearray(b.buffer))
+    if post != pre[:off] + want + pre[off + len(want):]:
+        return f"update_from_nplike({kind}, {sdt}->{ddt}, layout {lay}, offset {off}): the buffer does not hold the converted elements at the offset / other bytes changed"
+    if sdt == ddt and a.size:
+        # typed view: aliases exactly the bytes it covers
+        isz = np.dtype(ddt).itemsize
+        for meth in ("to_nplike", "to_nparray"):
+            v = getattr(b, meth)(off, np.dtype(ddt), a.shape if a.ndim else (1,))
+            if v.tobytes() != bytes(bytearray(b.buffer))[off : off + len(want)]:
+                return f"{meth}({kind}, {ddt}, shape {a.shape}, offset {off}) does not show the bytes at the offset"
+            before = bytes(bytearray(b.buffer))
+            flat = v.reshape(-1)
+            flat[-1] = 7
+            after = bytes(bytearray(b.buffer))
+            lo = off + (a.size - 1) * isz
+            if after[:lo] != before[:lo] or after[lo + isz:] != before[lo + isz:] or after[lo:lo + isz] != np.array(7, dtype=ddt).tobytes():
+                return f"{meth}({kind}, {ddt}, shape {a.shape}, offset {off}): a write through the view does not change exactly that element's bytes in the buffer"
+    return None
+
+
+def numpy_concrete(tr):
+    cases = []
+    offs = (0, 3) if tr == "quick" else (0, 1, 3, 8, 13)
+    for kind in ("BufferNumpy", "BufferByteArray"):
+        for i, sdt in enumerate(DTYPES):
+            for j, ddt in enumerate(DTYPES):
+                if tr == "quick" and not (sdt == ddt or (i + j) % 3 == 0):
+                    continue
+                for li, lay in enumerate(("1d", "2d_C", "2d_F", "2d_T", "strided", "3d_perm", "empty", "0d")):
+                    if tr == "quick" and (i + j + li) % 2:
+                        continue
+                    for off in offs:
+                        cases.append((kind, sdt, ddt, lay, off))
+    return cases
+
+
+def _np_case(c):
+    import warnings
+
+    with warnings.catch_warnings():
+        warnings.simplefilter("ignore")
+        return numpy_case(*c)
+
+
 def main(pid):
     tr = tier()
     rep = Report(pid, "model_checking", tr, technique="symbolic execution of the real slice-arithmetic primitives of BufferNumpy/BufferByteArray on a symbolic byte-container model (length and content symbolic); Skolem-position postcondition discharged by z3")
     jobs = []
     for kind in ("BufferNumpy", "BufferByteArray"):
         jobs += [("update_from_native", kind, "other"), ("update_from_native", kind, "self"), ("copy_to_native", kind, "-"), ("update_from_buffer", kind, "-"), ("to_native", kind, "-"), ("to_bytearray", kind, "-"), ("to_pointer_arg", kind, "-")]
+        jobs += [("update_from_buffer", kind, f"memoryview/{k}") for k in (2, 4, 8)]
         jobs += [("update_from_xbuffer", kind, v) for v in ("same_context", "other_context_same_kind", "other_context_other_kind")]
+        # the NumPy half: offset/length arithmetic for every count and shape (conversion itself is stub S16)
+        pairs = [("float64", "float64"), ("int16", "int16"), ("int32", "float64"), ("float64", "int8"), ("uint8", "uint64")]
+        if tr == "thorough":
+            pairs += [(a, b) for a in DTYPES for b in DTYPES if (a, b) not in pairs]
+        jobs += [("update_from_nplike", kind, f"{a}->{b}") for a, b in pairs]
+        for meth in ("to_nplike", "to_nparray"):
+            jobs += [(meth, kind, f"{dt}/{nd}") for dt, nd in (("float64", 1), ("int16", 2), ("int8", 3), ("uint32", 1))]
+            if tr == "thorough":
+                jobs += [(meth, kind, f"{dt}/{nd}") for dt in DTYPES for nd in (1, 2, 3) if (dt, nd) not in (("float64", 1), ("int16", 2), ("int8", 3), ("uint32", 1))]
     results = run_parallel(harness, jobs)
     for cfg, res in zip(jobs, results):
         rep.add_engine_result(res)
@@ -421,22 +718,32 @@ def main(pid):
             sig = f"{cfg[0]}:{cex['obligation'].split(':')[-1].strip()[:60]}"
             model = cex.get("detail") or cex.get("model")
             rep.candidate(sig, f"{res['name']}: {cex['obligation']} with {json.dumps(model)}", REPLAY.format(case=repr({"cfg": list(cfg), "model": model})))
+    # auxiliary, concrete: dtype conversion and source layouts of the NumPy half on the real buffers
+    ncases = numpy_concrete(tr)
+    nres = run_parallel(_np_case, ncases)
+    for c, r in zip(ncases, nres):
+        if r:
+            rep.candidate(f"numpy:{c[0]}:{c[3]}:{'same' if c[1] == c[2] else 'convert'}", r + " (concrete observation, no solver verdict)", NP_REPLAY.format(case=tuple(c)))
+    rep.validated += len(ncases)
+    rep.extra["numpy_concrete_cases"] = len(ncases)
     nval, bad, msgs = validate_model()
     rep.validated += nval
     rep.extra["model_validation_cases"] = nval
     if bad:
         rep.harness_error(f"container model S6 disagrees with the real bytearray/ndarray on {bad} of {nval} cases: {msgs}")
     for k in (BufferNumpy, BufferByteArray):
-        for meth in ("update_from_native", "copy_to_native", "to_native", "update_from_buffer", "to_bytearray", "to_pointer_arg"):
+        for meth in ("update_from_native", "copy_to_native", "to_native", "update_from_buffer", "to_bytearray", "to_pointer_arg", "update_from_nplike", "to_nplike"):
             rep.add_function(getattr(k, meth))
     rep.add_function(xctx.XBuffer.update_from_xbuffer)
     rep.bounds = {
         "capacity, offsets, lengths": "unbounded integers in [0, 2^62) (solver); content uninterpreted",
         "precondition": "ranges inside both containers (the documented caller contract)",
-        "primitives": [j[0] for j in jobs[:10]],
-        "outside_claim": ["update_from_nplike, to_nplike/to_nparray, scalar.py helpers (NumPy dtype conversion / views: not encodable; exercised concretely by the write-side validation runs)", "GPU buffers", "ranges outside the containers"],
+        "primitives": sorted(set(j[0] for j in jobs)),
+        "numpy_half": "SOLVER: element count, every dimension of the requested shape (<= 3 axes), offset, capacity; ENUMERATED: (source dtype, destination dtype) pairs and view dtypes (5+4 quick, all 100+30 thorough). The conversion and the element order of the source are stub S16 (opaque content); they are observed concretely on the real buffers: %d cases over 10x10 dtype pairs x 8 source layouts (C, Fortran, transposed, strided, permuted 3-D, empty, 0-d) x offsets, incl. aliasing of the typed views" % len(ncases),
+        "outside_claim": ["the values NumPy produces when converting between dtypes", "GPU buffers", "ranges outside the containers"],
     }
     rep.assumptions = ["S6: bytearray / 1-D int8 ndarray slice semantics as modelled by SymBytes (validated this run against the real containers on %d small cases)" % nval, "len/bytearray inside xobjects.context_cpu are replaced by versions that accept the model"]
-    rep.stubs = ["S6"]
-    rep.extra["partial"] = "slice primitives only; the NumPy-conversion part of C13 is not applicable to the technique"
+    rep.assumptions.append("S16: a NumPy array is (concrete dtype, symbolic element count, opaque content); astype gives an array of the same count in the other dtype, flatten its elements in index order, view('int8')/.data its count*itemsize bytes; np.frombuffer(storage, dtype, count, offset) is a typed window that raises unless it fits; np.prod multiplies proxies")
+    rep.stubs = ["S6", "S16"]
+    rep.extra["partial"] = "the offset/length arithmetic of every primitive is decided by the solver; NumPy's conversion and layout handling is observed concretely (auxiliary)"
     return rep.finish()
